@@ -87,28 +87,34 @@ def apply_contract(interp, c, func, args, kwargs):
         old = _call_pred(interp, c.old, env)
     if c.event is not None:
         st.emit(c.event, dict(bound))
-    # exceptional outcomes
-    outcomes = ['return']
+    # deterministic `when` conditions are about the pre-state: evaluate them before the frame is havocked
+    whens = []
     for exc_cls, spec in c.raises.items():
-        outcomes.append(('raise', exc_cls, spec))
-    for exc_cls in c.may_raise:
-        outcomes.append(('raise', exc_cls, {}))
-    if len(outcomes) > 1:
-        # deterministic `when` conditions first
-        for exc_cls, spec in c.raises.items():
-            when = spec.get('when')
-            if when is not None:
-                w = interp.truth(_call_pred(interp, when, env))
-                if interp.st.fork(w):
-                    exc = _make_exc(interp, exc_cls, spec, env)
-                    raise PyRaise(exc)
-        nondet = [o for o in outcomes[1:] if o[2].get('when') is None]
-        if nondet:
-            k = st.choose(1 + len(nondet))
-            if k > 0:
-                _, exc_cls, spec = nondet[k - 1]
-                exc = _make_exc(interp, exc_cls, spec, env)
-                raise PyRaise(exc)
+        when = spec.get('when')
+        if when is not None:
+            whens.append((exc_cls, spec, interp.truth(_call_pred(interp, when, env))))
+    if c.modifies:
+        havoc_modifies(interp, c, bound)
+
+    def raise_(exc_cls, spec):
+        exc = _make_exc(interp, exc_cls, spec, env)
+        ens = spec.get('ensures')
+        if c.modifies and ens is not None:
+            # the frame was havocked: what the exceptional postcondition says about it is all that is known
+            envx = _clause_env(bound, ghosts, {'exc': exc, 'old': old, 'trace': st.trace, 'ghost': st.ghost})
+            st.assume(interp.truth(_call_pred(interp, ens, envx)))
+        raise PyRaise(exc)
+
+    # exceptional outcomes
+    for exc_cls, spec, w in whens:
+        if interp.st.fork(w):
+            raise_(exc_cls, spec)
+    nondet = [(exc_cls, spec) for exc_cls, spec in c.raises.items() if spec.get('when') is None]
+    nondet += [(exc_cls, {}) for exc_cls in c.may_raise]
+    if nondet:
+        k = st.choose(1 + len(nondet))
+        if k > 0:
+            raise_(*nondet[k - 1])
     result = c.returns.make(interp, 'ret.%s' % c.qname.rpartition(':')[2]) if isinstance(c.returns, Ty) else None
     env2 = _clause_env(bound, ghosts, {'result': result, 'old': old, 'trace': st.trace, 'ghost': st.ghost})
     for name, clause in c.ensures.items():
@@ -129,6 +135,93 @@ def _make_exc(interp, exc_cls, spec, env):
         return exc_cls()
     except TypeError:
         return exc_cls.__new__(exc_cls)
+
+
+def _modified_object(interp, bound, path):
+    """'self' or 'self._document_source': a parameter, or an object reached from it by attribute names."""
+    parts = path.split('.')
+    if parts[0] not in bound:
+        raise Unsupported('modifies: %r is not a parameter' % parts[0])
+    obj = bound[parts[0]]
+    for a in parts[1:]:
+        obj = interp.getattr(obj, a)
+    if isinstance(obj, (SOpt, SChoice)):
+        obj = interp.resolve(obj)
+    return obj
+
+
+def havoc_modifies(interp, c, bound):
+    """Call site of a contract with a frame: the declared attributes get arbitrary new values."""
+    for path, attrs in c.modifies.items():
+        obj = _modified_object(interp, bound, path)
+        if obj is None:
+            continue
+        for attr, ty in attrs.items():
+            interp.note_heap_write(obj, attr)
+            v = ty.make(interp, 'post.%s.%s' % (path, attr)) if isinstance(ty, Ty) else ty
+            interp.setattr(obj, attr, v)
+
+
+_MISSING = object()
+
+
+def _snap_value(v):
+    if isinstance(v, list):
+        return ('list', v, list(v))
+    if isinstance(v, dict):
+        return ('dict', v, dict(v))
+    return ('obj', v, None)
+
+
+def snapshot_frame(interp, c, bound):
+    """Before the call: the attributes of every plain-instance parameter (and of every object named in
+    `modifies`), one level of list / dict contents included."""
+    snaps = {}
+    paths = list(bound.keys()) + [p for p in c.modifies if p not in bound]
+    for path in paths:
+        try:
+            obj = _modified_object(interp, bound, path)
+        except PyRaise:
+            continue
+        d = getattr(obj, '__dict__', None)
+        if obj is None or isinstance(obj, (Sym, type, types.FunctionType, types.ModuleType)) or not isinstance(d, dict):
+            continue
+        from .values import Opaque
+        if isinstance(obj, Opaque):
+            continue
+        snaps[path] = (obj, {k: _snap_value(v) for k, v in d.items()})
+    return snaps
+
+
+def check_frame(interp, c, snaps, fname):
+    """After the call (normal or exceptional): everything outside `modifies` is unchanged."""
+    st = interp.st
+    for path, (obj, before) in snaps.items():
+        allowed = c.modifies.get(path, {})
+        after = obj.__dict__
+        for k in sorted(set(before) | set(after)):
+            if k in allowed:
+                continue
+            b = before.get(k, _MISSING)
+            a = after.get(k, _MISSING)
+            name = '%s : frame[%s.%s unchanged]' % (fname, path, k)
+            if b is _MISSING or a is _MISSING:
+                st.oblige(name, False, {'kind': 'frame'})
+                continue
+            kind, bv, content = b
+            if a is not bv:
+                same = interp.eq(a, bv) if isinstance(a, (Sym, int, str, bool, type(None))) and \
+                    isinstance(bv, (Sym, int, str, bool, type(None))) else False
+                st.oblige(name, same, {'kind': 'frame'})
+                continue
+            if kind == 'list':
+                ok = len(a) == len(content) and all(x is y for x, y in zip(a, content))
+                st.oblige(name, ok, {'kind': 'frame', 'what': 'list contents'})
+            elif kind == 'dict':
+                ok = set(a) == set(content) and all(a[q] is content[q] for q in content)
+                st.oblige(name, ok, {'kind': 'frame', 'what': 'dict contents'})
+            else:
+                st.oblige(name, True, {'kind': 'frame'})
 
 
 class FunctionReport:
@@ -259,6 +352,15 @@ def _run_path(interp, reg, c, func, rep):
     pos = [args[n] for n in names[:code.co_argcount]]
     kw = {n: args[n] for n in names[code.co_argcount:] if n in args}
     outcome = None
+    pre_whens = {}
+    snaps = None
+    if c.modifies is not None:
+        # the function may change its arguments: `when` conditions speak about the pre-state, and
+        # everything outside the declared frame must be unchanged afterwards
+        for exc_cls, spec in c.raises.items():
+            if spec.get('when') is not None:
+                pre_whens[exc_cls] = interp.truth(_call_pred(interp, spec['when'], env))
+        snaps = snapshot_frame(interp, c, args)
     try:
         result = interp.call_real_function(func, pos, kw, c.owner)
         from .interp import GenObj
@@ -268,13 +370,15 @@ def _run_path(interp, reg, c, func, rep):
     key = 'return' if outcome[0] == 'return' else type(outcome[1]).__name__
     rep.outcomes[key] = rep.outcomes.get(key, 0) + 1
     fname = c.qname
+    if snaps is not None:
+        check_frame(interp, c, snaps, fname)
     if outcome[0] == 'return':
         env2 = _clause_env(args, ghosts, {'result': outcome[1], 'old': old, 'trace': st.trace, 'ghost': st.ghost})
         # a declared deterministic `when` exception must have been raised
         for exc_cls, spec in c.raises.items():
             when = spec.get('when')
             if when is not None:
-                w = interp.truth(_call_pred(interp, when, env))
+                w = pre_whens[exc_cls] if exc_cls in pre_whens else interp.truth(_call_pred(interp, when, env))
                 st.oblige('%s : raises[%s] when-condition implies raise' % (fname, _exc_name(exc_cls)),
                           interp.not_(w), {'kind': 'exc-post'})
         for name, clause in c.ensures.items():
@@ -289,7 +393,10 @@ def _run_path(interp, reg, c, func, rep):
                 matched = True
                 env2 = _clause_env(args, ghosts, {'exc': exc, 'old': old, 'trace': st.trace, 'ghost': st.ghost})
                 when = spec.get('when')
-                if when is not None:
+                if when is not None and exc_cls in pre_whens:
+                    st.oblige('%s : raises[%s] only when' % (fname, _exc_name(exc_cls)), pre_whens[exc_cls],
+                              {'kind': 'exc-post'})
+                elif when is not None:
                     _oblige_clause(interp, '%s : raises[%s] only when' % (fname, _exc_name(exc_cls)),
                                    when, env, {'kind': 'exc-post'})
                 st.oblige('%s : raises[%s] is a declared outcome' % (fname, _exc_name(exc_cls)), True,
